@@ -19,6 +19,8 @@ from vlib.framework import Stats, hyp_search
 from vlib.universe import Par, PO, POK, VP, KWO, VK
 from checks import c15
 
+from vlib import expect
+
 LEVEL = 'exploration'
 RULE = ('Results of merge (pairs, triples) / embed (all use_* flags, inner star parameters spelled like the outer\'s included) / '
         'mask / forwards over the <=2-named universe (thorough: all ordered pairs for merge and embed; quick: stride), of '
@@ -318,6 +320,17 @@ def c3({inner}): return 0
 @specifiers.forwards_to_function(c3)
 def c1({outer}*args, **kwargs): return c3(*args, **kwargs)
 ''', 'c1', ['c1', 'c3']),
+    ('closure-factory', '''
+def c3({inner}): return 0
+def c2(q=None): return 0
+def make(fn):
+    def w({outer}*args, **kwargs): return fn(*args, **kwargs)
+    return w
+first = make(c2)
+import sigtools as _st
+FIRST_SIG = _st.signature(first)
+c1 = make(c3)
+''', 'c1', ['c1', 'c3']),
     ('decorator', '''
 from sigtools import wrappers
 @wrappers.decorator
@@ -343,6 +356,44 @@ def check_retrieval(tname, inner, mid, outer, stats):
         obj = g[t[2].split('.')[0]]
         for a in t[2].split('.')[1:]:
             obj = getattr(obj, a)
+        first_views = {}
+        for rnd in (0, 1):
+            if rnd == 1:
+                # retrievals on objects built from this one (a partial object over it, a second partial with a bound keyword)
+                # must leave what it reports unchanged: every returned map is the caller's own
+                import functools
+                for rel_label, rel in (('functools.partial(%s)' % t[2], functools.partial(obj)),
+                                       ('functools.partial(%s, zz9=1)' % t[2], functools.partial(obj, zz9=1))):
+                    for gl, getter in (('sigtools.signature', sigtools.signature), ('signatures.signature', signatures.signature)):
+                        stats.case()
+                        try:
+                            psig = getter(rel)
+                        except ValueError:
+                            stats.cls('retrieval/partial-raised')
+                            continue
+                        pdesc = '%s(%s) for\n%s' % (gl, rel_label, src)
+                        if check_wellformed(psig, stats, dict(case, via=gl, related=rel_label), pdesc, 'retrieval',
+                                            multi_call=tname in ('two-calls', 'diamond')) is False:
+                            continue
+                        pd = psig.sources['+depths']
+                        if pd.get(rel) != 0 or any(d < 1 for f, d in pd.items() if f is not rel):
+                            stats.fail('C08/retrieval-partial/depths', dict(case, via=gl, related=rel_label),
+                                       '%s: the partial object is called first (depth 0), everything else lies deeper; got %r' % (pdesc, pd))
+                        stats.cls('retrieval/partial-over/%s' % tname)
+            for label, getter in (('sigtools.signature', sigtools.signature), ('signatures.signature', signatures.signature),
+                                  ('sigtools.signature(auto=False)', lambda o: sigtools.signature(o, auto=False))):
+                try:
+                    sig = getter(obj)
+                except ValueError:
+                    continue
+                view = (str(sig), sorted((n, [expect.ident(f) for f in fs]) for n, fs in sig.sources.items() if n != '+depths'),
+                        sorted((repr(expect.ident(f)), d) for f, d in sig.sources['+depths'].items()))
+                if rnd == 0:
+                    first_views[label] = view
+                elif label in first_views and first_views[label] != view:
+                    stats.fail('C08/retrieval/changes-after-related-retrieval', dict(case, via=label),
+                               '%s(%s) reported %r before and %r after the signatures of partial objects over it were retrieved, for\n%s' % (
+                                   label, t[2], first_views[label], view, src))
         for label, getter in (('sigtools.signature', sigtools.signature), ('signatures.signature', signatures.signature),
                               ('sigtools.signature(auto=False)', lambda o: sigtools.signature(o, auto=False))):
             stats.case()
@@ -368,6 +419,8 @@ def check_retrieval(tname, inner, mid, outer, stats):
                 chain = [g[n] for n in t[3]]
                 present = [f for f in chain if f in depths]
                 ds = [depths[f] for f in present]
+                if chain[0] not in depths:
+                    stats.fail('C08/retrieval/outermost-missing', dict(case, via=label), '%s: the inspected callable itself has no depth: %r' % (desc, depths))
                 if present and present[0] is chain[0] and ds[0] != 0:
                     stats.fail('C08/retrieval/outermost-depth', dict(case, via=label), '%s: depth of the outermost callable is %d' % (desc, ds[0]))
                 if any(b <= a for a, b in zip(ds, ds[1:])):
